@@ -5,6 +5,9 @@ import OrsoVerif.Model.GroupByCode
 import OrsoVerif.Lemmas.GroupByCode
 import OrsoVerif.Model.GroupByX
 import OrsoVerif.Lemmas.GroupByX
+import OrsoVerif.Model.GroupByEq
+import OrsoVerif.Lemmas.GroupByEq
+import OrsoVerif.Lemmas.GroupByCodeEq
 /-!
 # C12 — GroupBy aggregates equal a reference partition-and-fold
 
@@ -700,10 +703,8 @@ whatever the hash function, the identity `_map` computes is injective in the key
 false for `hash(tuple(…))`, `hash_identity_merges`.) -/
 theorem source_group_identity_injective {κ : Type} (h : κ → κ) :
     Function.Injective (identOf h source.key) := by
-  have hk : source.key = .tuple := by decide
-  rw [hk]
-  intro a b hab
-  exact hab
+  have hk : source.key = .tuple ∨ source.key = .typedTuple := by decide
+  rcases hk with hk | hk <;> rw [hk] <;> intro a b hab <;> exact hab
 
 /-- **A lazily backed frame is materialised before it is walked** (`for record in self._dictset` in
 `_map`; `DataFrame.__iter__` calls `materialize`, which replaces a generator by a list). -/
@@ -765,20 +766,27 @@ theorem source_aggregate_spec {ρ κ : Type} [DecidableEq κ] (h : κ → κ) (k
     (source_good.cols reqs) source_good.aggs (source_group_identity_injective h) keyOf cell st hst rows).2,
     aggregate_spec keyOf cell rows reqs hne]
 
-/-- **The `*` pseudo column is never null** (`"*" if column == -1 else record[column]`,
-group_by.py:104): the value `_map` yields for a requested column is the row's cell, and a non-null
-marker when the column is not in the frame — so `COUNT(*)` is the group size (`count_star`). -/
+/-- **The `*` pseudo column is never null, and every column of the frame is itself**
+(`collect_column_indicies = [source_columns.index(target) if target in source_columns else -1 …]` and
+`"*" if column == -1 else record[column]`, group_by.py:89-104): the value `_map` yields for a requested
+column is the row's cell — for the column at position 0 as for any other (`positions.get(target) or -1`
+would turn the first column into `*`, example `first_column_is_not_star` below) — and a non-null marker
+when the column is not in the frame — so `COUNT(*)` is the group size (`count_star`). -/
 theorem source_star_never_null (columns : List String) (r : List PyVal) (c : String) :
-    cellOfC source.value columns r c = cellOf columns r c
-    ∧ (index c columns = none → (cellOfC source.value columns r c).isSome) := by
+    cellOfC source.value source.colIndex columns r c = cellOf columns r c
+    ∧ (index c columns = none → (cellOfC source.value source.colIndex columns r c).isSome) := by
   have hv : source.value = .starIfMissing := by decide
+  have hp : posOf source.colIndex c columns = index c columns := by
+    have hi : source.colIndex = .indexIfPresent ∨ source.colIndex = .getDefault := by decide
+    rcases hi with hi | hi <;> rw [hi] <;> rfl
   rw [hv]
   constructor
   · unfold cellOfC cellOf
+    rw [hp]
     cases index c columns <;> rfl
   · intro hc
     unfold cellOfC
-    rw [hc]
+    rw [hp, hc]
     rfl
 
 /-- **Labels.**  Every f-string of `aggregate` that names an aggregate column produces
@@ -822,7 +830,7 @@ theorem source_calls_spec (fr : Frame) (lazy : Bool) (objs : List (List String))
   rw [hzip, List.map_map]
   apply List.map_congr_left
   intro c hc
-  have hcell : cellOfC source.value fr.columns = cellOf fr.columns := by
+  have hcell : cellOfC source.value source.colIndex fr.columns = cellOf fr.columns := by
     funext r col
     exact (source_star_never_null fr.columns r col).1
   simp only [Function.comp, Prod.map, id, hcell]
@@ -945,6 +953,29 @@ example :
     ∧ bodyOkX repaired.body = true := by
   decide
 
+/-- `avg_agg` in float arithmetic (`return sum(values) / len(values)`, no `Decimal` operand; the seeded
+change C12-w5s2): the result is the double nearest to the mean, not the mean — `aggOk` refuses it, so
+`source_aggregators` fails for it; with one `Decimal` operand the division is exact again. -/
+example :
+    aggOk .avg (.ifEmpty .none (.div .sum .len)) = false
+    ∧ evalA (.ifEmpty .none (.div .sum .len)) [some (2 ^ 53), some (2 ^ 53 + 2), some 1] = .fratio (2 ^ 54 + 3) 3
+    ∧ aggOk .avg (.ifEmpty .none (.div (.decimal .sum) .len)) = true
+    ∧ aggOk .avg (.ifEmpty .none (.div .sum (.decimal .len))) = true := by
+  decide
+
+/-- `positions.get(target) or -1` for the position of a requested column (the seeded change C12-w5s3):
+position 0 is falsy, the first column of the frame is read as the `*` pseudo column — every row counts,
+nulls included, and `SUM` meets the text `"*"`. -/
+example :
+    cellOfC .starIfMissing .getOrMinusOne ["v", "k"] [.none, .str "a"] "v" = some 1
+    ∧ cellOfC .starIfMissing .indexIfPresent ["v", "k"] [.none, .str "a"] "v" = none
+    ∧ cellOfC .starIfMissing .getOrMinusOne ["k", "v"] [.str "a", .none] "v" = none
+    ∧ runCallsF { repaired with colIndex := .getOrMinusOne }
+        { columns := ["v", "k"], rows := [[.none, .str "a"], [.int 5, .str "a"]] }
+        false [["k"]] [[1]] [(0, .aggregate [(.count, "v")])]
+      = [.ok (["COUNT(v)", "k"], [[.int 2, .str "a"]])] := by
+  decide
+
 /-- The repaired program passes every condition (the conditions are satisfiable). -/
 example :
     bodyOk repaired.body = true ∧ yieldOk repaired.yieldGuards = true
@@ -952,5 +983,307 @@ example :
   decide
 
 end Source
+
+/-! ## Equal keys that are written differently
+
+"Grouping partitions the rows by *equality* of their key values": `1`, `1.0` and `True` are one key,
+`0`, `0.0`, `-0.0` and `False` are one key, `(1, "a")` and `(1.0, "a")` are one key.  The theorems
+above compare keys with Lean's `=`; the ones below are about the pass whose dictionaries find a key
+by an equivalence `eqv` (`Model/GroupByEq.lean`: `aggregateBy`), for *every* equivalence that is the
+kernel of some canonical form (`Kernel eqv canon`), and about Python's `==` on the key values of the
+property (`pyEqVal`, `keyEq`), which is such an equivalence. -/
+section EqualKeys
+variable {γ : Type} [DecidableEq γ]
+
+omit [DecidableEq κ] in
+/-- **The pass over keys compared by an equivalence is the pass over their canonical forms**: every
+theorem of this file about `aggregate` / `reference` (partition, fold, independence of the requests,
+of the row order, of the calls before) holds of it, read through `canon`. -/
+theorem equivalence_simulation (eqv : κ → κ → Bool) (canon : κ → γ) (hk : Kernel eqv canon)
+    (keyOf : ρ → κ) (cell : ρ → String → Option Int) (rows : List ρ) (reqs : List Req) (h : reqs ≠ []) :
+    (aggregateBy eqv keyOf cell rows reqs).map (fun ka => (canon ka.1, ka.2))
+      = reference (fun r => canon (keyOf r)) cell rows reqs
+    ∧ (groupsOfBy eqv keyOf rows).map canon = groupKeys (fun r => canon (keyOf r)) rows := by
+  refine ⟨by rw [aggregateBy_map_canon hk, aggregate_spec _ cell rows reqs h], ?_⟩
+  unfold groupsOfBy
+  rw [firstSeenBy_emit_keys (Kernel.refl hk) keyOf _ (by simp) rows, firstSeenBy_map hk, List.map_map]
+  rfl
+
+omit [DecidableEq κ] in
+/-- **Equal keys are one group, however they are written** (clauses "partitions the rows by equality
+of their key values" and "one output row per distinct key").  No two output rows have equivalent
+keys; every row of the frame belongs to an output row (the one whose key is equivalent to its own);
+and the aggregates of an output row are the folds over the non-null values of *all* rows whose key
+is equivalent to the row's key — not only of those that are written the same way. -/
+theorem equal_keys_one_group (eqv : κ → κ → Bool) (canon : κ → γ) (hk : Kernel eqv canon)
+    (keyOf : ρ → κ) (cell : ρ → String → Option Int) (rows : List ρ) (reqs : List Req) (h : reqs ≠ []) :
+    ((aggregateBy eqv keyOf cell rows reqs).map (·.1)).Pairwise (fun a b => eqv a b = false)
+    ∧ (∀ r ∈ rows, ∃ ka ∈ aggregateBy eqv keyOf cell rows reqs, eqv (keyOf r) ka.1 = true)
+    ∧ (∀ ka ∈ aggregateBy eqv keyOf cell rows reqs,
+        ka.2 = reqs.map fun q => fold q.1 (nonNull cell (membersBy eqv keyOf rows ka.1) q.2)) := by
+  have hsim := (equivalence_simulation eqv canon hk keyOf cell rows reqs h).1
+  have hkeys : ((aggregateBy eqv keyOf cell rows reqs).map (·.1)).map canon
+      = groupKeys (fun r => canon (keyOf r)) rows := by
+    have := congrArg (List.map (·.1)) hsim
+    simpa [reference, List.map_map, Function.comp_def] using this
+  refine ⟨?_, ?_, ?_⟩
+  · have hnd : (((aggregateBy eqv keyOf cell rows reqs).map (·.1)).map canon).Nodup := by
+      rw [hkeys]; exact nodup_firstSeen _
+    rw [List.Nodup, List.pairwise_map] at hnd
+    refine hnd.imp ?_
+    intro a b hab
+    cases he : eqv a b with
+    | false => rfl
+    | true => exact absurd ((hk a b).mp he) hab
+  · intro r hr
+    have hmem : canon (keyOf r) ∈ groupKeys (fun r => canon (keyOf r)) rows := mem_groupKeys.mpr ⟨r, hr, rfl⟩
+    rw [← hkeys, List.mem_map] at hmem
+    obtain ⟨k, hkm, hkc⟩ := hmem
+    obtain ⟨ka, hka, rfl⟩ := List.mem_map.mp hkm
+    exact ⟨ka, hka, (hk _ _).mpr hkc.symm⟩
+  · intro ka hka
+    have hm : (canon ka.1, ka.2) ∈ reference (fun r => canon (keyOf r)) cell rows reqs := by
+      rw [← hsim]; exact List.mem_map.mpr ⟨ka, hka, rfl⟩
+    unfold reference at hm
+    obtain ⟨k', _, he⟩ := List.mem_map.mp hm
+    have h1 : k' = canon ka.1 := congrArg Prod.fst he
+    have h2 := congrArg Prod.snd he
+    simp only at h2
+    rw [← h2, h1]
+    apply List.map_congr_left
+    intro q _
+    congr 2
+    unfold members membersBy
+    apply List.filter_congr
+    intro r _
+    cases he : eqv (keyOf r) ka.1 with
+    | true => simpa using (hk _ _).mp he
+    | false =>
+      have : ¬ canon (keyOf r) = canon ka.1 := fun hc => by rw [(hk _ _).mpr hc] at he; cases he
+      simpa using this
+
+omit [DecidableEq κ] [DecidableEq γ] in
+/-- **The key an output row shows** is the key of the first row of its class, as that row writes it
+(`self._group_keys[group_key] = [(name, record[column]) …]` is executed by the first row of a group
+only): no earlier row has an equivalent key.  (Which member of the class is shown is not part of the
+property; this is what the code does.) -/
+theorem representative_is_first_occurrence (eqv : κ → κ → Bool) (canon : κ → γ) (hk : Kernel eqv canon)
+    (keyOf : ρ → κ) (cell : ρ → String → Option Int) (rows : List ρ) (reqs : List Req) (h : reqs ≠ []) :
+    ∀ ka ∈ aggregateBy eqv keyOf cell rows reqs, ∃ pre r suf, rows = pre ++ r :: suf ∧ keyOf r = ka.1
+      ∧ ∀ r' ∈ pre, eqv (keyOf r') ka.1 = false := by
+  intro ka hka
+  have hcols : firstSeen (reqs.map (·.2)) ≠ [] := firstSeen_ne_nil (by simpa using h)
+  have hmem : ka.1 ∈ firstSeenBy eqv (rows.map keyOf) := by
+    rw [← firstSeenBy_emit_keys (Kernel.refl hk) keyOf cell hcols rows]
+    unfold aggregateBy at hka
+    obtain ⟨g, hg, rfl⟩ := List.mem_map.mp hka
+    exact hg
+  rcases foldl_insBy_first hk (rows.map keyOf) [] ka.1 hmem with hnil | ⟨pre, suf, hxs, _, hpre⟩
+  · cases hnil
+  · obtain ⟨l1, l2, hrows, hl1, hl2⟩ := List.map_eq_append_iff.mp hxs
+    obtain ⟨r, l2', rfl, hr, _⟩ := List.map_eq_cons_iff.mp hl2
+    refine ⟨l1, r, l2', hrows, hr, ?_⟩
+    intro r' hr'
+    have hne := hpre (keyOf r') (by rw [← hl1]; exact List.mem_map.mpr ⟨r', hr', rfl⟩)
+    cases he : eqv (keyOf r') ka.1 with
+    | false => rfl
+    | true => exact absurd ((hk _ _).mp he) hne
+
+/-- **Python's `==` on the key values of the property** (`pyEqVal`; on key tuples `keyEq`) is an
+equivalence — the kernel of the canonical form `keyCanon` — under which distinct integers stay
+distinct however their hashes fall (`-1` / `-2`, `0` / `2**61 - 1`), a boolean equals the integer
+`0` or `1` it counts as, and a text or a null equals nothing but itself. -/
+theorem python_key_equality :
+    Kernel keyEq keyCanon
+    ∧ (∀ a, pyEqVal a a = true)
+    ∧ (∀ a b, pyEqVal a b = true → pyEqVal b a = true)
+    ∧ (∀ a b c, pyEqVal a b = true → pyEqVal b c = true → pyEqVal a c = true)
+    ∧ (∀ i j : Int, pyEqVal (.int i) (.int j) = true ↔ i = j)
+    ∧ (∀ (b : Bool) (i : Int), pyEqVal (.bool b) (.int i) = true ↔ i = if b then 1 else 0)
+    ∧ (∀ (s : String) (v : PyVal), pyEqVal (.str s) v = true ↔ v = .str s)
+    ∧ (∀ v : PyVal, pyEqVal .none v = true ↔ v = .none) := by
+  refine ⟨fun a b => by simp [keyEq], fun a => by simp [pyEqVal], ?_, ?_, ?_, ?_, ?_, ?_⟩
+  · intro a b hab
+    simp only [pyEqVal, decide_eq_true_eq] at hab ⊢
+    exact hab.symm
+  · intro a b c hab hbc
+    simp only [pyEqVal, decide_eq_true_eq] at hab hbc ⊢
+    exact hab.trans hbc
+  · intro i j
+    constructor
+    · intro hij
+      exact dyadic_int_inj (of_decide_eq_true hij)
+    · intro hij
+      subst hij
+      exact decide_eq_true rfl
+  · intro b i
+    constructor
+    · intro hb
+      have hb' := of_decide_eq_true hb
+      cases b with
+      | true =>
+        have h1 : CKey.num 1 0 = dyadic i 0 := hb'
+        exact (dyadic_int_inj (i := 1) (j := i) ((by decide : dyadic 1 0 = CKey.num 1 0).trans h1)).symm
+      | false =>
+        have h0 : CKey.num 0 0 = dyadic i 0 := hb'
+        exact (dyadic_int_inj (i := 0) (j := i) ((by decide : dyadic 0 0 = CKey.num 0 0).trans h0)).symm
+    · intro hi
+      subst hi
+      cases b <;> decide
+  · intro s v
+    simp only [pyEqVal, decide_eq_true_eq]
+    constructor
+    · intro hs
+      cases v with
+      | str t => simp only [canonVal, CKey.str.injEq] at hs; rw [hs]
+      | none => simp [canonVal] at hs
+      | bool b => simp [canonVal] at hs
+      | int i => exact absurd hs.symm (canonVal_int_ne_str i s)
+      | float f => exact absurd hs.symm (canonVal_float_ne_str f s)
+      | bytes b => simp [canonVal] at hs
+      | list l => simp [canonVal] at hs
+      | dict d => simp [canonVal] at hs
+    · intro hv
+      rw [hv]
+  · intro v
+    simp only [pyEqVal, decide_eq_true_eq]
+    constructor
+    · intro hs
+      cases v with
+      | none => rfl
+      | str t => simp [canonVal] at hs
+      | bool b => simp [canonVal] at hs
+      | int i => exact absurd hs.symm (canonVal_int_ne_none i)
+      | float f => exact absurd hs.symm (canonVal_float_ne_none f)
+      | bytes b => simp [canonVal] at hs
+      | list l => simp [canonVal] at hs
+      | dict d => simp [canonVal] at hs
+    · intro hv
+      rw [hv]
+
+/-- `1 == 1.0 == True`, `0 == 0.0 == -0.0 == False`, `2**53 == 2.0**53` but `2**53 + 1 != 2.0**53`
+(no rounding of the integer), `10**20 == 1e20`, `2 != 2.5`, `"1" != 1`, `None != 0`; composite keys
+differ or agree component by component. -/
+example :
+    pyEqVal (.int 1) (.float 0x3ff0000000000000) = true ∧ pyEqVal (.bool true) (.float 0x3ff0000000000000) = true
+    ∧ pyEqVal (.int 0) (.float 0x8000000000000000) = true ∧ pyEqVal (.bool false) (.float 0) = true
+    ∧ pyEqVal (.float 0) (.float 0x8000000000000000) = true
+    ∧ pyEqVal (.int (2 ^ 53)) (.float 0x4340000000000000) = true
+    ∧ pyEqVal (.int (2 ^ 53 + 1)) (.float 0x4340000000000000) = false
+    ∧ pyEqVal (.int (10 ^ 20)) (.float 0x4415af1d78b58c40) = true
+    ∧ pyEqVal (.int 2) (.float 0x4004000000000000) = false
+    ∧ pyEqVal (.str "1") (.int 1) = false ∧ pyEqVal .none (.int 0) = false
+    ∧ keyEq [.int 1, .str "a"] [.float 0x3ff0000000000000, .str "a"] = true
+    ∧ keyEq [.int 1, .str "a"] [.bool true, .str "b"] = false := by
+  decide +kernel
+
+/-- Non-vacuity, and what the seeded change "a group is identified by (type, value) pairs" breaks:
+over the key column `1, 1.0, True, 2` there are two groups, the first shown as the `1` of the first
+row with all three rows in it. -/
+example :
+    aggregateBy keyEq (fun r : PyVal × Int => [r.1]) (fun r _ => some r.2)
+        [(.int 1, 10), (.float 0x3ff0000000000000, 20), (.bool true, 5), (.int 2, 1)] [(.sum, "v"), (.count, "*")]
+      = [([.int 1], [.int 35, .int 3]), ([.int 2], [.int 1, .int 1])] := by
+  decide +kernel
+
+end EqualKeys
+
+section SourceIdentity
+open GroupByCode GroupByIR
+
+/-- **The identity `_map` gives a group is equal exactly when the keys are** (`group_key = tuple(record[col]
+for col in group_column_indicies)`, group_by.py:101): whatever `==` on key tuples is, whatever the types
+of the key values and whatever the hash, two rows are put into one group iff their keys are equal —
+neither fewer (`hash(…)`: unequal keys merged, `source_group_identity_injective`) nor more (`(type(x), x)`
+pairs, `repr`: equal keys of different types split; example below). -/
+theorem source_group_identity_is_key_equality {κ τ : Type} [DecidableEq κ] [DecidableEq τ]
+    (eqv : κ → κ → Bool) (ty : κ → τ) (h : κ → κ) (a b : κ) :
+    identEq eqv ty h source.key a b = eqv a b := by
+  have hk : source.key = .tuple := by decide
+  rw [hk]
+  rfl
+
+/-- Tightness: with `(type(value), value)` pairs as the identity, `1` and `True` (and `1.0`) are equal
+keys with different identities. -/
+example :
+    identEq keyEq (fun k => k.map pyType) pyHashKey .typedTuple [.int 1] [.bool true] = false
+    ∧ keyEq [.int 1] [.bool true] = true
+    ∧ identEq keyEq (fun k => k.map pyType) pyHashKey .typedTuple [.int 1] [.int 1] = true := by
+  decide +kernel
+
+/-- **The dictionaries of the source find a group by Python's `==` of the keys**: the identity read
+from the source (as `hash` and `==` see it) is the same for two keys iff the keys are equal —
+`1`, `1.0` and `True` share it, `1` and `2`, `-1` and `-2` do not. -/
+theorem source_identity_is_python_equality (a b : List PyVal) :
+    identKeyOf source.key a = identKeyOf source.key b ↔ keyEq a b = true := by
+  have hk : source.key = .tuple := by decide
+  rw [hk, identKeyOf_tuple, identKeyOf_tuple]
+  simp only [keyEq, decide_eq_true_eq]
+  exact ⟨fun h => tag_injective h, fun h => by rw [h]⟩
+
+/-- **`aggregate` as written partitions by equality of the key values, however they are written.**
+For every frame whose keys are tuples of Python scalars, every non-empty request list and every state
+of `_group_keys` left by earlier calls: the statements of `_map` and `aggregate` in the working tree
+return a table which, with the key of every row read as `==` sees it (`keyCanon`: `1`, `1.0`, `True`
+alike), is the partition-and-fold table of the frame keyed by those readings — one row per class of
+equal keys, each request folded over the non-null values of all rows of the class. -/
+theorem source_aggregate_equal_keys {ρ : Type} (keyOf : ρ → List PyVal) (cell : ρ → String → Option Int)
+    (st : ObjState (List (Nat × CKey)) (List PyVal)) (hst : Consistent (identKeyOf source.key) st.keys)
+    (rows : List ρ) (reqs : List Req) (hne : reqs ≠ []) :
+    ((aggregateC source (identKeyOf source.key) keyOf cell st rows reqs).2.map
+        fun t => t.map fun ka => (keyCanon ka.1, ka.2))
+      = some ((reference (fun r => keyCanon (keyOf r)) cell rows reqs).map fun ka => (ka.1, ka.2.map AVal.ofAgg)) := by
+  have h := aggregateC_by_identity source source_good.body source_good.yields source_good.registers
+    source_good.fresh reqs (source_good.cols reqs) source_good.aggs (identKeyOf source.key) keyOf cell st hst rows
+  have hk : source.key = .tuple := by decide
+  rw [aggregate_spec _ cell rows reqs hne] at h
+  have hid : identKeyOf source.key = fun k => (keyCanon k).map fun c => ((0 : Nat), c) := by
+    funext k
+    rw [hk, identKeyOf_tuple]
+  rw [hid] at h
+  rw [reference_map_inj tag_injective (fun r => keyCanon (keyOf r))] at h
+  cases hres : (aggregateC source (identKeyOf source.key) keyOf cell st rows reqs).2 with
+  | none => rw [hid] at hres; rw [hres] at h; cases h
+  | some t =>
+    rw [hid] at hres
+    rw [hres] at h
+    simp only [Option.map_some, Option.some.injEq, List.map_map] at h ⊢
+    have hmap := congrArg (List.map fun ka : List (Nat × CKey) × List AVal => (ka.1.map (·.2), ka.2)) h
+    simp only [List.map_map, Function.comp_def, List.map_map] at hmap
+    simpa [Function.comp_def, List.map_map] using hmap
+
+/-- **Any sequence of calls on any number of `GroupBy` objects of one frame whose keys may be equal
+without being written alike, lazily backed or materialised.**  Read from the source and run with the
+identity the dictionaries see (`identKeyOf`: equal for two keys iff the keys are equal,
+`source_identity_is_python_equality`), every call — `aggregate` with any request list, `groups()`, any
+order, any object — returns, with each shown key read through its identity, exactly what the functional
+model returns for that call alone on a fresh object of the materialised frame keyed by identity
+(`sequence_spec`: the partition-and-fold table, the distinct keys). -/
+theorem source_calls_equal_keys {ρ : Type} (keyOfs : Nat → ρ → List PyVal) (cell : ρ → String → Option Int)
+    (rows : List ρ) (lazy : Bool) (calls : List (Nat × Op)) :
+    (runCallsC source (identKeyOf source.key) keyOfs cell
+        (if lazy then Source.gen rows false else Source.list rows) (fun _ => ObjState.empty) calls).map
+        (mapOutC (identKeyOf source.key))
+      = calls.map fun c =>
+          liftOut (stepS (fun r => identKeyOf source.key (keyOfs c.1 r)) cell rows [] c.2).2 := by
+  apply runCallsC_by_identity source_good
+  cases lazy
+  · exact Or.inl rfl
+  · exact Or.inr rfl
+
+/-- Tightness: with `(type(value), value)` pairs the interpreter splits `1`, `1.0` and `True` into three
+groups with partial sums (the seeded change C12-w5s1), as the implementation then does. -/
+example :
+    runCallsEqF { repaired with key := .typedTuple }
+        { columns := ["k", "v"], rows := [[.int 1, .int 10], [.float 0x3ff0000000000000, .int 20], [.bool true, .int 5]] }
+        false [["k"]] [[0]] [(0, .aggregate [(.sum, "v")])]
+      = [.ok (["SUM(v)", "k"], [[.int 10, .int 1], [.int 20, .float 0x3ff0000000000000], [.int 5, .bool true]])]
+    ∧ runCallsEqF repaired
+        { columns := ["k", "v"], rows := [[.int 1, .int 10], [.float 0x3ff0000000000000, .int 20], [.bool true, .int 5]] }
+        false [["k"]] [[0]] [(0, .aggregate [(.sum, "v")])]
+      = [.ok (["SUM(v)", "k"], [[.int 35, .int 1]])] := by
+  decide +kernel
+
+end SourceIdentity
 
 end C12
